@@ -73,6 +73,9 @@ func stdCLI(mode string) *simdev.CLI {
 				return "zeta 8"
 			case line == "show w5":
 				return "omega"
+			case line == "show h6":
+				// context help: lines whose TAIL looks like a prompt ("cr>") although no line of it is one
+				return "  level  priv level\r\n  <cr>\r\n  | Output modifier\r\n  rate  set a<cr>\r\nend of help"
 			case line == "clear q":
 				c.Pending = &simdev.Ask{Prompt: "Proceed? [confirm]", Echo: true, OnAnswer: func(_ *simdev.CLI, _ string) string { return "done" }}
 
@@ -255,6 +258,13 @@ func buildPlatformOnOpen(c sessCfg) (*sess, error) {
 }
 
 // buildGenericChanLog: a generic session with a channel log configured.
+// buildGenericDepth: a prompt search depth just above the longest line the device prints (24 bytes)
+func buildGenericDepth(c sessCfg) (*sess, error) {
+	c.extra = append(c.extra, options.WithPromptSearchDepth(24))
+
+	return buildGeneric("exec")(c)
+}
+
 func buildGenericChanLog(c sessCfg) (*sess, error) {
 	c.extra = append(c.extra, options.WithChannelLog(io.Discard))
 
@@ -476,6 +486,17 @@ func faultOps() []*faultOp {
 		{name: "p.open.onopen", openIsOp: true, build: buildPlatformOnOpen,
 			// the same through a platform definition (acquire-priv, then two commands through the driver)
 			run: func(s *sess, _ []util.Option, _ time.Duration) (string, error) { return "", s.nd.Open() }},
+		{name: "g.sendcommand.helpout", perOp: true, build: buildGenericDepth,
+			// with a small search depth the window the prompt is looked for in starts in the middle of the output: only a
+			// window that begins at a line start keeps "  <cr>" from being taken for the prompt "cr>"
+			run: func(s *sess, o []util.Option, _ time.Duration) (string, error) {
+				r, err := s.gd.SendCommand("show h6", o...)
+				if err != nil {
+					return "", err
+				}
+
+				return r.Result, nil
+			}, next: showW5, nextWant: "omega"},
 		{name: "g.sendcommand.chanlog", perOp: true, build: buildGenericChanLog,
 			run: func(s *sess, o []util.Option, _ time.Duration) (string, error) {
 				r, err := s.gd.SendCommand("show v7", o...)
